@@ -134,6 +134,17 @@ func ctxID(c context.Context) int {
 	return 0 // background
 }
 
+// c5DiscardHook discards the events whose message selects them.
+type c5DiscardHook struct{}
+
+func (c5DiscardHook) Run(e *zerolog.Event, l zerolog.Level, msg string) {
+	zsim.Yield("discard hook")
+	if fnv([]byte(msg))%3 == 0 {
+		zsim.Probe("hook_discards_event")
+		e.Discard()
+	}
+}
+
 type c5Hook struct {
 	r    *c5Run
 	name string
@@ -205,6 +216,13 @@ func (r *c5Run) refLogger(m c5Model, w io.Writer) zerolog.Logger {
 			lg = lg.With().Timestamp().Logger()
 		case "@caller":
 			lg = lg.With().Caller().Logger()
+		case "@callerskip2", "@callerskip3", "@callerskip4":
+			lg = lg.With().CallerWithSkipFrameCount(int(h[len(h)-1] - '0')).Logger()
+		case "@discard", "@discard2":
+			lg = lg.Hook(c5DiscardHook{})
+			if h == "@discard2" {
+				lg = lg.Hook(c5DiscardHook{})
+			}
 		default:
 			lg = lg.Hook(c5Hook{r, h})
 		}
@@ -271,18 +289,28 @@ func (r *c5Run) send(e *zerolog.Event, ev c5Event) {
 // compares what reached the sinks with the isolated reference.
 func (r *c5Run) emitChecked(e *zerolog.Event, ev c5Event, m c5Model, what string) {
 	t := r.task()
-	var got []c5Write
-	t.cap = &got
-	t.seen = nil
-	r.send(r.fill(e, ev), ev)
-	t.cap = nil
-	seen := t.seen
-	// reference
-	var want []c5Write
-	t.inRef = true
-	ref := r.refLogger(m, c5RefSink{&want})
-	r.send(r.fill(r.open(&ref, ev), ev), ev)
-	t.inRef = false
+	var got, want []c5Write
+	var seen []c5Seen
+	// the event under test and the reference are finalized by the same statement (pass 0
+	// and pass 1 of this loop), so that caller hooks with any skip count report the same
+	// file:line for both
+	for pass := 0; pass < 2; pass++ {
+		if pass == 0 {
+			t.cap = &got
+			t.seen = nil
+		} else {
+			t.inRef = true
+			ref := r.refLogger(m, c5RefSink{&want})
+			e = r.open(&ref, ev)
+		}
+		r.send(r.fill(e, ev), ev)
+		if pass == 0 {
+			t.cap = nil
+			seen = t.seen
+		} else {
+			t.inRef = false
+		}
+	}
 	if len(got) != len(want) {
 		zsim.Fail("C05.bytes", "%s: event %s reached the destinations %d time(s), a logger built alone from %v emits %d", what, ev.id, len(got), m, len(want))
 	}
@@ -341,7 +369,21 @@ func (r *c5Run) derive(p *c5Node) *c5Node {
 	ch := r.ch
 	m := p.m.clone()
 	tag := fmt.Sprintf("n%d_", len(r.nodes))
-	switch ch.Weighted(6, 2, 2, 3, 3, 2, 1, 3, 1, 1) {
+	switch ch.Weighted(6, 2, 2, 3, 3, 2, 1, 3, 1, 1, 1, 1) {
+	case 10:
+		// hooks that discard selected events; two of them discard the same event twice
+		if ch.Chance(1, 2) {
+			m.hooks = append(m.hooks, "@discard")
+			return r.addNode(p.lg.Hook(c5DiscardHook{}), m, fmt.Sprintf("n%d.Hook(discard)", p.id))
+		}
+		m.hooks = append(m.hooks, "@discard2")
+		return r.addNode(p.lg.Hook(c5DiscardHook{}).Hook(c5DiscardHook{}), m, fmt.Sprintf("n%d.Hook(discard).Hook(discard)", p.id))
+	case 11:
+		k := 2 + ch.Intn(3)
+		m.hooks = append(m.hooks, fmt.Sprintf("@callerskip%d", k))
+		n := r.addNode(p.lg.With().CallerWithSkipFrameCount(k).Logger(), m, fmt.Sprintf("n%d.With().CallerWithSkipFrameCount(%d)", p.id, k))
+		n.fromWith = true
+		return n
 	case 8:
 		// Timestamp() and Caller() on a Context are implemented as hooks
 		m.hooks = append(m.hooks, "@timestamp")
